@@ -357,6 +357,40 @@ func c20Run(c *fw.Ctx, i int) {
 		srv.HttpPostJson(s.ApiAddr(), "/api/ctrl/add_ip_blacklist", string(b), 5*time.Second)
 		st.inc("api_blacklist")
 	})
+	// ---- a relay pull on a name of its own (no publisher competes), attached, then kicked / stopped / left to the origin
+	origin2, _ := ref.NewRtmpStub(func(n int) ref.StubBehaviour { return ref.StubBehaviour{} })
+	if origin2 != nil {
+		defer origin2.Close()
+		actor("pull-kick", func(rr *rand.Rand) {
+			if atomic.LoadInt32(&disposed) == 1 {
+				return
+			}
+			from := s.Notify.Len()
+			b, _ := json.Marshal(map[string]interface{}{"url": "rtmp://" + origin2.Addr + "/live/pk", "stream_name": "pk", "pull_retry_num": 0, "auto_stop_pull_after_no_out_ms": -1, "pull_timeout_ms": 1000})
+			srv.HttpPostJson(s.ApiAddr(), "/api/ctrl/start_relay_pull", string(b), 5*time.Second)
+			st.inc("api_start_pull")
+			ev, ok := s.Notify.Wait(700*time.Millisecond, from, func(ev srv.Event) bool { return ev.Kind == "pull_start" })
+			if !ok {
+				srv.HttpGet(s.ApiAddr(), "/api/ctrl/stop_relay_pull?stream_name=pk", 5*time.Second)
+				return
+			}
+			st.inc("pull_attached")
+			time.Sleep(time.Duration(rr.Intn(40)) * time.Millisecond)
+			if rr.Intn(3) != 0 {
+				kb, _ := json.Marshal(map[string]string{"stream_name": "pk", "session_id": ev.SessionId})
+				_, _, err := srv.HttpPostJson(s.ApiAddr(), "/api/ctrl/kick_session", string(kb), 5*time.Second)
+				st.inc("api_kick_pull")
+				if err != nil && atomic.LoadInt32(&disposed) == 0 {
+					if n := atomic.AddInt32(&apiFail, 1); n > atomic.LoadInt32(&maxApiFail) {
+						atomic.StoreInt32(&maxApiFail, n)
+					}
+				}
+			} else {
+				srv.HttpGet(s.ApiAddr(), "/api/ctrl/stop_relay_pull?stream_name=pk", 5*time.Second)
+				st.inc("api_stop_pull")
+			}
+		})
+	}
 	// ---- API
 	for k := 0; k < 4; k++ {
 		actor(fmt.Sprintf("api-%d", k), func(rr *rand.Rand) {
@@ -547,7 +581,7 @@ func init() {
 		Batches:            func(string) int { return 16 },
 		CaseTimeout:        func(tier string) time.Duration { return 3 * time.Minute },
 		TimeoutIsViolation: true,
-		Rule: "worker built with -race (checkptr on); one lal server per process with every output enabled (HLS with sub-session hash key, periodic group debug log every second, FLV/TS recording, RTSP, WS-RTSP, relay push to a stub target that refuses every third connection, API); GOMAXPROCS ∈ {1,2,4,16}; liveness sweep every 2–4 s. For 12 s (thorough 40 s) concurrent actors churn on three stream names: 3 RTMP publishers, RTSP publishers over TCP and UDP (one in four sends SETUP requests naming no track of its SDP and goes away), a customize publisher, start_rtp_pub + PS over UDP/TCP (incl. a second TCP connection), 4 subscriber actors (RTMP, HTTP-FLV, WS-FLV, HTTP-TS, RTSP TCP/UDP, HLS playlist+segments, consumers that never read), 3 HLS pollers and a blacklist writer with 1 s entries (every /hls/ request consults and expires the ip blacklist), 4 API actors (stat group / all_group / lal_info, kick of listed pub/sub/pull ids, start/stop_relay_pull against an origin that refuses / closes / serves, add_ip_blacklist, web UI); Dispose at a seeded instant 0.2–1.7 s before the actors stop. Oracles: every `WARNING: DATA RACE` block in the child's log whose accesses touch lal or naza frames is a violation (signature = unordered pair of innermost lal/naza functions); `fatal error: concurrent map…`, `send on closed channel`, `all goroutines are asleep` are crashes; ≥3 consecutive API calls timing out (5 s each) while the server runs, Dispose not returning within 20 s, or a case exceeding its watchdog are deadlock violations with the goroutine dump; so is a goroutine that, after Dispose returned and all peers are gone, waits for a lal mutex in two dumps 2.5 s apart (a teardown that never completes). cell = GOMAXPROCS.",
+		Rule: "worker built with -race (checkptr on); one lal server per process with every output enabled (HLS with sub-session hash key, periodic group debug log every second, FLV/TS recording, RTSP, WS-RTSP, relay push to a stub target that refuses every third connection, API); GOMAXPROCS ∈ {1,2,4,16}; liveness sweep every 2–4 s. For 12 s (thorough 40 s) concurrent actors churn on three stream names: 3 RTMP publishers, RTSP publishers over TCP and UDP (one in four sends SETUP requests naming no track of its SDP and goes away), a customize publisher, start_rtp_pub + PS over UDP/TCP (incl. a second TCP connection), 4 subscriber actors (RTMP, HTTP-FLV, WS-FLV, HTTP-TS, RTSP TCP/UDP, HLS playlist+segments, consumers that never read), 3 HLS pollers and a blacklist writer with 1 s entries (every /hls/ request consults and expires the ip blacklist), a relay pull on a name of its own that attaches and is then kicked or stopped, 4 API actors (stat group / all_group / lal_info, kick of listed pub/sub/pull ids, start/stop_relay_pull against an origin that refuses / closes / serves, add_ip_blacklist, web UI); Dispose at a seeded instant 0.2–1.7 s before the actors stop. Oracles: every `WARNING: DATA RACE` block in the child's log whose accesses touch lal or naza frames is a violation (signature = unordered pair of innermost lal/naza functions); `fatal error: concurrent map…`, `send on closed channel`, `all goroutines are asleep` are crashes; ≥3 consecutive API calls timing out (5 s each) while the server runs, Dispose not returning within 20 s, or a case exceeding its watchdog are deadlock violations with the goroutine dump; so is a goroutine that, after Dispose returned and all peers are gone, waits for a lal mutex in two dumps 2.5 s apart (a teardown that never completes). cell = GOMAXPROCS.",
 		Assumptions: []string{"GORACE=halt_on_error=0 exitcode=0 so that one report does not hide the rest", "a race between two harness-only frames is a harness fault, not a finding"},
 		MinCells: 2,
 		Run:      c20Run,
@@ -570,7 +604,10 @@ func init() {
 			}
 			seen[sig] = true
 			if !lal {
-				sig = "harness-" + sig
+				// both accesses are in harness code: a harness fault, not a finding about lal. It is
+				// printed to stderr (to be repaired in the harness) and not reported as a violation.
+				fmt.Fprintf(os.Stderr, "HARNESS-RACE %s\n%s\n", sig, trunc(b, 3000))
+				continue
 			}
 			add(fw.Violation{Sig: sig, What: "WARNING: DATA RACE" + trunc(b, 5000)}, nil)
 		}
